@@ -110,6 +110,7 @@ class SymCtx(_CtxBase):
                 self.eng.assume(cond)
 
     def unwind(self, what):
+        self.eng.pending = ("inconclusive", "unwinding bound reached: " + what)
         raise Inconclusive("unwinding bound reached: " + what)
 
     def truth(self, cond):
@@ -267,17 +268,30 @@ def run_path(fn, lifted, params, mode, prefix, frozen):
     core.CUR = eng
     cx = SymCtx(eng, lifted, params, mode)
     try:
+        res = _run_path(fn, cx, eng)
+    finally:
+        core.CUR = None
+    # an engine signal that was swallowed by the code under test (e.g. "except BaseException") still counts
+    if eng.pending is not None and res.status in ("ok", "exception", "violation"):
+        kind, msg = eng.pending
+        if kind == "abort":
+            return PathResult("abort", eng)
+        if kind == "inconclusive":
+            return PathResult("inconclusive", eng, msg + ("" if res.status != "ok" else " (swallowed by the code under test)"))
+        if kind == "violation" and res.status != "violation":
+            return PathResult("violation", eng, msg)
+    return res
+
+
+def _run_path(fn, cx, eng):
+    try:
         fn(cx)
-        if eng.poison:
-            return PathResult("inconclusive", eng, eng.poison + " (swallowed by the code under test)")
         return PathResult("ok", eng)
     except PathAbort:
         return PathResult("abort", eng)
     except Violation as v:
         return PathResult("violation", eng, v.msg)
     except AssertionError as e:
-        if eng.poison:
-            return PathResult("inconclusive", eng, eng.poison)
         return PathResult("violation", eng, "assert: %s" % (e,))
     except Unsupported as e:
         return PathResult("inconclusive", eng, "unsupported: %s" % (e,), traceback.format_exc())
@@ -286,11 +300,7 @@ def run_path(fn, lifted, params, mode, prefix, frozen):
     except RecursionError:
         return PathResult("inconclusive", eng, "recursion limit", traceback.format_exc())
     except Exception as e:   # unexpected exception escaping the harness: candidate violation
-        if eng.poison:
-            return PathResult("inconclusive", eng, eng.poison)
         return PathResult("exception", eng, "%s: %s" % (type(e).__name__, e), traceback.format_exc())
-    finally:
-        core.CUR = None
 
 
 def run_concrete(fn, inputs, params, mode=("main", frozenset())):
